@@ -92,7 +92,19 @@ type siteD struct {
 	exec        string // body of func(t *T)
 }
 
+// chunk closes the current init function and opens a new one every few sites: one giant init
+// function (hundreds of composite literals and closures) makes the compiler's back end crawl.
+var emitted int
+
+func chunk(b *bytes.Buffer) {
+	emitted++
+	if emitted%6 == 0 {
+		b.WriteString("}\n\nfunc init() {\n")
+	}
+}
+
 func (s siteD) emit(b *bytes.Buffer) {
+	chunk(b)
 	fmt.Fprintf(b, "\treg(&site{Key: %q, Family: %q, N: %d, Monad: %s, WantVal: %d,\n", s.key, s.family, s.n, s.m.mconst, s.wantVal)
 	fmt.Fprintf(b, "\t\tSteps: []step{")
 	for i, st := range s.steps {
@@ -316,6 +328,7 @@ func genMonad(m monad) []byte {
 	// sequence-shaped families: positions are elements, length is a run-time parameter (0..8 exhaustively)
 	x := map[string]string{"try": "Try", "option": "Opt", "either": "Eit", "statet": "St"}[m.pkg]
 	trav := func(name string, operand, cb bool, call string) {
+		chunk(&b)
 		fmt.Fprintf(&b, "\tregTrav(%q, %s, %v, %v, func(t *T, L int) { %s(t, %s.%s) })\n", p+"."+name, m.mconst, operand, cb, m.res, p, call)
 	}
 	trav("Traverse", false, true, fmt.Sprintf("Traverse(t.iter(0, L), trav%s(t))", x))
@@ -334,11 +347,6 @@ func genMonad(m monad) []byte {
 }
 
 // ---- builders (ApplicativeN / ChainN of try and option) ---------------------------------
-
-type kind struct {
-	method string
-	chain  bool // only on MonadChain
-}
 
 func consType(k int) string {
 	if k == 0 {
@@ -405,26 +413,23 @@ func genBuilders(m monad) []byte {
 		kinds []string
 	}{{"Applicative", apKinds}, {"Chain", chKinds}} {
 		K := len(bl.kinds)
-		stride := 3
-		if K%3 == 0 {
-			stride = 5
-		}
 		type scheme struct {
 			name string
 			pick func(k int) string
 		}
+		// uniform chains of every method kind whose position can fail (all 2^N masks each), and all K
+		// rotations of the kind list (every kind at every position, every adjacent pair of kinds)
 		var schemes []scheme
 		for _, kd := range bl.kinds {
 			kd := kd
+			if _, sd := stepCall(m, kd, 1); sd.bit < 0 {
+				continue
+			}
 			schemes = append(schemes, scheme{"all-" + kd, func(int) string { return kd }})
 		}
 		for r := 0; r < K; r++ {
 			r := r
-			schemes = append(schemes, scheme{fmt.Sprintf("rot1-%d", r), func(k int) string { return bl.kinds[(k+r)%K] }})
-		}
-		for r := 0; r < K; r++ {
-			r := r
-			schemes = append(schemes, scheme{fmt.Sprintf("rot%d-%d", stride, r), func(k int) string { return bl.kinds[(stride*k+r)%K] }})
+			schemes = append(schemes, scheme{fmt.Sprintf("rot-%d", r), func(k int) string { return bl.kinds[(k+r)%K] }})
 		}
 		seen := map[string]bool{}
 		for n := 1; n <= 9; n++ {
@@ -440,6 +445,9 @@ func genBuilders(m monad) []byte {
 					names = append(names, kd)
 				}
 				key := fmt.Sprintf("%s.%s%d[%s]", m.pkg, bl.ctor, n, strings.Join(names, "."))
+				if strings.HasPrefix(sc.name, "all-") && n > 1 {
+					key = fmt.Sprintf("%s.%s%d[%dx%s]", m.pkg, bl.ctor, n, n, names[0])
+				}
 				if seen[key] {
 					continue // e.g. arity 1: several rotations coincide
 				}
@@ -460,6 +468,7 @@ func genFuture() []byte {
 	b.WriteString(header("call sites of future.FuncN / future.UnitN (panic-capture family, executed on the inline executor)"))
 	b.WriteString("import \"github.com/csgura/fp/future\"\n\nfunc init() {\n")
 	for n := 1; n <= 9; n++ {
+		chunk(&b)
 		fmt.Fprintf(&b, "\tregPanicSite(\"future.Func%d\", \"future.FuncN\", %d, flagVal|flagErr|flagFut, func(t *T) { resFut(t, future.Func%d(fp%d(t, idF, t.behavePair), t.exec)(%s)) })\n", n, n, n, n, pvs(n))
 		fmt.Fprintf(&b, "\tregPanicSite(\"future.Unit%d\", \"future.UnitN\", %d, flagErr|flagFut, func(t *T) { resFut(t, future.Unit%d(fn%d(t, idF, t.behaveErr), t.exec)(%s)) })\n", n, n, n, n, pvs(n))
 	}
